@@ -26,9 +26,13 @@ type imgChecker struct {
 	img   *memory.Database
 	bc    *blockchain.Blockchain
 	evals int
+	class string // when set, replaces the violation class of the shared block checks
 }
 
 func (k *imgChecker) fail(class, key, format string, a ...any) {
+	if k.class != "" && (class == "data_lost" || class == "data_changed" || class == "migrated_block_emptied" || class == "block_unreadable") {
+		class = k.class
+	}
 	panic(softFail{mismatch{class, key, fmt.Sprintf(format, a...)}})
 }
 
